@@ -1573,6 +1573,45 @@ std::string render_with_library(const Scenario &s, pbt::Ctx &ctx) {
             }
         }
     }
+    // one renderer object and one cache for a sequence of renders while the value - the same object - changes in between: its members
+    // are taken out and put back in reverse order (other slots, other blocks), then half of them replaced. Each render equals a fresh one.
+    if (!s.pointers) {
+        TC            tc{tb.cp(), SizeT(tb.n)};
+        Value<Char_T> v2 = v;
+        for (int round = 0; round < 3; ++round) {
+            StringStream<Char_T> o5, fresh;
+            tc.Render(cache, v2, o5);
+            Template::Render(tb.cp(), SizeT(tb.n), v2, fresh);
+            if (!(o5 == fresh)) {
+                ctx.fail("reused-renderer-differs", "render #" + std::to_string(round + 1) + " of one renderer object over a value that changed in between differs from a fresh render: " + s.text);
+            }
+            Value<Char_T> old = Memory::Move(v2);
+            v2.Reset();
+            if (old.IsObject()) {
+                for (SizeT i = old.Size(); i != 0; --i) {
+                    const String<Char_T> *k = old.GetKey(i - 1);
+                    Value<Char_T>        *m = old.GetValue(i - 1);
+                    if (k != nullptr && m != nullptr) {
+                        if (round == 1 && (i & 1) != 0 && !m->IsArray() && !m->IsObject()) {
+                            v2[*k] = mkstr<Char_T>("other" + std::to_string(i));
+                        } else {
+                            v2[*k] = Memory::Move(*m);
+                        }
+                    }
+                }
+            } else if (old.IsArray()) {
+                for (SizeT i = old.Size(); i != 0; --i) {
+                    Value<Char_T> *m = old.GetValue(i - 1);
+                    if (m != nullptr) {
+                        v2 += Memory::Move(*m);
+                    }
+                }
+            } else {
+                v2 = Memory::Move(old);
+            }
+        }
+        ctx.label("one-renderer-changing-value");
+    }
     // concurrent renders through the shared const cache and the shared value
     {
         const unsigned nthreads = 4;
